@@ -956,8 +956,13 @@ class CallMixin:
         for loc in c.modifies:
             self.havoc_loc(post, loc)
         res = fresh(c.result, "ret_" + c.short.split(".")[-1]) if c.result is not None else VNONE
+        if c.result is not None:
+            self.assume_wf(post, res)
         env2 = dict(env)
         env2["result"] = res
+        for gname, gsort in c.ghosts.items():       # the callee's ghost outcome is unknown to the caller
+            env2["final_" + gname] = fresh(gsort, "final_" + gname)
+            env[("final_" + gname)] = env2["final_" + gname]
         post_st = St(env2, post.heap, [], pre_st, post.ghost)
         for lab, e in c.ensures:
             post.assume(self.spec_bool(e, post_st))
@@ -971,6 +976,7 @@ class CallMixin:
                 sx.assume(self.spec_bool(r.when, pre_st))
             x_st = St(dict(env), sx.heap, [], pre_st, sx.ghost)
             for e in r.ensures:
+                e = e[6:] if e.startswith("ghost:") else e
                 sx.assume(self.spec_bool(e, x_st))
             if self.feasible(sx):
                 self.raised.append(Outcome("raise", sx, ExcVal(r.exc)))
@@ -995,6 +1001,7 @@ class CallMixin:
         else:
             cur = st.heap[loc]
             st.heap[loc] = fresh(cur.sort, "heap_" + "_".join(loc))
+        self.assume_wf(st, st.heap[loc])        # a havocked container is still a container (len >= 0, keys distinct)
         self.written.add(loc)
 
     # ---------------------------------------------------------------- world-defined calls
